@@ -171,9 +171,27 @@ func H_C12_norm(k1, k2 int) {
 	u2, t2 := c12Label(k2)
 	n1, n2 := c12Norm(u1), c12Norm(u2)
 	var doc []byte
-	doc = append(doc, '[')
-	doc = append(doc, t1...)
-	doc = append(doc, "]\n\n["...)
+	// the reference is spelled in every form the statement names: shortcut, collapsed,
+	// full, and full image reference
+	switch vconcrete(nondetInt(0, 3)) {
+	case 0:
+		doc = append(doc, '[')
+		doc = append(doc, t1...)
+		doc = append(doc, ']')
+	case 1:
+		doc = append(doc, '[')
+		doc = append(doc, t1...)
+		doc = append(doc, "][]"...)
+	case 2:
+		doc = append(doc, "[x]["...)
+		doc = append(doc, t1...)
+		doc = append(doc, ']')
+	default:
+		doc = append(doc, "![x]["...)
+		doc = append(doc, t1...)
+		doc = append(doc, ']')
+	}
+	doc = append(doc, "\n\n["...)
 	doc = append(doc, t2...)
 	doc = append(doc, "]: /u\n"...)
 	blocks, _ := Parse(doc)
@@ -423,4 +441,67 @@ func H_C12_closure(kind, a int) {
 		walk(b.AsNode())
 	}
 	vdigest(dumpBlocks(blocks))
+}
+
+
+// H_C12_adjacent(eol, _): two definitions on adjacent lines of ONE paragraph (the
+// second is recognised only after the first has been split off), in LF (0), CRLF (1)
+// or bare-CR (2) spelling, optionally inside a block quote, the first optionally
+// titled, optionally followed by a line of ordinary text; then a blank line and the
+// uses. The second definition either competes for the same label (first wins) or
+// defines another label (both resolve).
+func H_C12_adjacent(eol, _ int) {
+	e := []string{"\n", "\r\n", "\r"}[eol]
+	variants := []string{"foo bar", "FOO BAR", "Foo  Bar", "fOO\tbAR"}
+	v := func() string { return variants[vconcrete(nondetInt(0, len(variants)-1))] }
+	pre := ""
+	if nondetBool() {
+		pre = "> "
+	}
+	titled := nondetBool()
+	compete := nondetBool()
+	text := nondetBool()
+	w := nondetByte()
+	assume(isL(w))
+	var doc []byte
+	doc = append(doc, pre+"["+v()+"]: /first"...)
+	if titled {
+		doc = append(doc, " \"one\""...)
+	}
+	doc = append(doc, e...)
+	if compete {
+		doc = append(doc, pre+"["+v()+"]: /second"+e...)
+	} else {
+		doc = append(doc, pre+"[baz]: /second"+e...)
+	}
+	if text {
+		doc = append(doc, pre...)
+		doc = append(doc, w)
+		doc = append(doc, e...)
+	}
+	doc = append(doc, e...)
+	doc = append(doc, "["+v()+"] [BAZ]"+e...)
+	blocks, refs := Parse(doc)
+	out := renderWith(&HTMLRenderer{ReferenceMap: refs}, blocks)
+	has := func(want string) bool {
+		for i := 0; i+len(want) <= len(out); i++ {
+			if string(out[i:i+len(want)]) == want {
+				return true
+			}
+		}
+		return false
+	}
+	if titled {
+		check(has("<a href=\"/first\" title=\"one\">"), "C12.adjacent.first-wins")
+	} else {
+		check(has("<a href=\"/first\">"), "C12.adjacent.first-wins")
+	}
+	if compete {
+		check(len(refs) == 1, "C12.adjacent.keys")
+		check(!has("/second"), "C12.adjacent.second-silent")
+	} else {
+		check(len(refs) == 2, "C12.adjacent.keys")
+		check(has("<a href=\"/second\">"), "C12.adjacent.second-resolves")
+	}
+	vdigest(out)
 }
